@@ -3,7 +3,7 @@
 package keeper
 
 // Machine-checked contracts for the govc verifier (/verif). Comment-only; compiled only with -tags verif.
-// The uniform guard clauses are generated by /verif/contracts-src/gen_vault.py.
+// Built by /verif/contracts-src/vault/build.py from full.txt and gen_guards.py.
 
 // ---- common abbreviations ----
 //@ pred esmOn(k, ctx, app): k.esm.GetESMStatus(ctx, app).1 && k.esm.GetESMStatus(ctx, app).0.Status
@@ -12,7 +12,28 @@ package keeper
 //@ pred totalDebt(v): v.AmountOut + v.InterestAccumulated + v.ClosingFeeAccumulated
 //@ pred crOf(k, ctx, ep, v): k.CalculateCollateralizationRatio(ctx, ep, v.AmountIn, totalDebt(v))
 
+// ---- ratio computation: deterministic in the oracle/asset/esm state; inactive price of a needed asset is an error ----
+//@ func (k Keeper) CalculateCollateralizationRatio
+//@   property C03, C14
+//@   pure
+//@   let epv = k.asset.GetPairsVault(ctx, extendedPairVaultID).0
+//@   let pr = k.asset.GetPair(ctx, epv.PairId).0
+//@   let ai = k.asset.GetAsset(ctx, pr.AssetIn).0
+//@   let ao = k.asset.GetAsset(ctx, pr.AssetOut).0
+//@   ensures #c03-price-in-needed: !esmOn(k, ctx, epv.AppId) && k.oracle.CalcAssetPrice(ctx, ai.Id, amountIn).1 != nil ==> result1 != nil
+//@   ensures #c03-price-out-needed: !esmOn(k, ctx, epv.AppId) && epv.AssetOutOraclePrice && k.asset.GetPairsVault(ctx, extendedPairVaultID).1 && k.asset.GetPair(ctx, epv.PairId).1 && k.asset.GetAsset(ctx, pr.AssetIn).1 && k.asset.GetAsset(ctx, pr.AssetOut).1 && k.oracle.CalcAssetPrice(ctx, ao.Id, amountOut).1 != nil ==> result1 != nil
+//@   ensures #c03-missing-config: !k.asset.GetPairsVault(ctx, extendedPairVaultID).1 || !k.asset.GetPair(ctx, epv.PairId).1 || !k.asset.GetAsset(ctx, pr.AssetIn).1 || !k.asset.GetAsset(ctx, pr.AssetOut).1 ==> result1 != nil
+
+//@ func (k Keeper) VerifyCollaterlizationRatio
+//@   property C03
+//@   ensures #c03-verify: result == nil && !statusEsm ==> k.CalculateCollateralizationRatio(ctx, extendedPairVaultID, amountIn, amountOut).1 == nil && k.CalculateCollateralizationRatio(ctx, extendedPairVaultID, amountIn, amountOut).0 >= minCrRequired
+//@   let epv = k.asset.GetPairsVault(ctx, extendedPairVaultID).0
+//@   let pr = k.asset.GetPair(ctx, epv.PairId).0
+//@   ensures #c03-verify-esm: result == nil && statusEsm ==> k.CalculateCollateralizationRatio(ctx, extendedPairVaultID, amountIn, amountOut).0 >= ONE
+
+
 // ---- MsgDeposit: collateral in = record up = published total up; no mint ----
+
 //@ func (k msgServer) MsgDeposit
 //@   property C01, C02, C12, C14
 //@   let v0 = k.GetVault(ctx, msg.UserVaultId).0
@@ -63,6 +84,7 @@ package keeper
 //@   requires #map-keyed: k.GetAppExtendedPairVaultMappingData(ctx, msg.AppId, msg.ExtendedPairVaultId).1 ==> k.GetAppExtendedPairVaultMappingData(ctx, msg.AppId, msg.ExtendedPairVaultId).0.AppId == msg.AppId && k.GetAppExtendedPairVaultMappingData(ctx, msg.AppId, msg.ExtendedPairVaultId).0.ExtendedPairId == msg.ExtendedPairVaultId
 //@   requires #map-exists: k.GetVault(ctx, msg.UserVaultId).1 ==> k.GetAppExtendedPairVaultMappingData(ctx, v0.AppId, v0.ExtendedPairVaultID).1
 //@   requires #user-not-module: user != vm
+//@   requires #asset-keyed: (k.asset.GetAsset(ctx, pair.AssetIn).1 ==> k.asset.GetAsset(ctx, pair.AssetIn).0.Id == pair.AssetIn) && (k.asset.GetAsset(ctx, pair.AssetOut).1 ==> k.asset.GetAsset(ctx, pair.AssetOut).0.Id == pair.AssetOut)
 //@   requires #app-keyed: k.asset.GetApp(ctx, msg.AppId).1 ==> k.asset.GetApp(ctx, msg.AppId).0.Id == msg.AppId
 //@   requires #pairsvault-keyed: k.asset.GetPairsVault(ctx, msg.ExtendedPairVaultId).1 ==> k.asset.GetPairsVault(ctx, msg.ExtendedPairVaultId).0.Id == msg.ExtendedPairVaultId
 //@   letpost v1 = k.GetVault(ctx, msg.UserVaultId).0
@@ -73,8 +95,9 @@ package keeper
 //@   ensures [C01] #c01-count: ok ==> k.GetLengthOfVault(ctx) == old(k.GetLengthOfVault(ctx))
 //@   ensures [C01] #c01-frame-vaults: ok ==> forall j :: j != msg.UserVaultId ==> k.GetVault(ctx, j) == old(k.GetVault(ctx, j))
 //@   ensures [C02] #c02-no-mint: ok ==> forall d :: supply(d) == old(supply(d))
-//@   ensures [C03] #c03-min-cr: ok && !esmOn(k, ctx, msg.AppId) ==> crOf(k, ctx, msg.ExtendedPairVaultId, v1).1 == nil && crOf(k, ctx, msg.ExtendedPairVaultId, v1).0 >= ep.MinCr
-//@   fails_if [C03] #c03-price-inactive: !esmOn(k, ctx, msg.AppId) && k.oracle.CalcAssetPrice(ctx, pair.AssetIn, 1).1 != nil
+//@   ensures [C03] #c03-cr-defined: ok && !esmOn(k, ctx, msg.AppId) ==> crOf(k, ctx, msg.ExtendedPairVaultId, v1).1 == nil
+//@   ensures [C03] #c03-min-cr: ok && !esmOn(k, ctx, msg.AppId) ==> crOf(k, ctx, msg.ExtendedPairVaultId, v1).0 >= ep.MinCr
+//@   fails_if [C03] #c03-price-inactive: !esmOn(k, ctx, msg.AppId) && !(K("market").GetTwa(ctx, pair.AssetIn).1 && K("market").GetTwa(ctx, pair.AssetIn).0.IsPriceActive)
 //@   ensures [C12] #c12-owner: ok ==> vf0 && msg.From == v0.Owner
 //@   ensures [C12] #c12-own-app: ok ==> v0.AppId == msg.AppId && v0.ExtendedPairVaultID == msg.ExtendedPairVaultId
 //@   fails_if [C14] #c14-breaker: k.esm.GetKillSwitchData(ctx, msg.AppId).0.BreakerEnable
@@ -102,6 +125,7 @@ package keeper
 //@   requires #map-exists: k.GetVault(ctx, msg.UserVaultId).1 ==> k.GetAppExtendedPairVaultMappingData(ctx, v0.AppId, v0.ExtendedPairVaultID).1
 //@   requires #distinct-accounts: user != vm && user != cm && vm != cm
 //@   requires #fee-rate: ep.DrawDownFee >= 0 && ep.DrawDownFee <= ONE
+//@   requires #asset-keyed: (k.asset.GetAsset(ctx, pair.AssetIn).1 ==> k.asset.GetAsset(ctx, pair.AssetIn).0.Id == pair.AssetIn) && (k.asset.GetAsset(ctx, pair.AssetOut).1 ==> k.asset.GetAsset(ctx, pair.AssetOut).0.Id == pair.AssetOut)
 //@   requires #nonneg-book: nf(k, ctx, msg.AppId, pair.AssetOut) >= 0
 //@   requires #app-keyed: k.asset.GetApp(ctx, msg.AppId).1 ==> k.asset.GetApp(ctx, msg.AppId).0.Id == msg.AppId
 //@   requires #pairsvault-keyed: k.asset.GetPairsVault(ctx, msg.ExtendedPairVaultId).1 ==> k.asset.GetPairsVault(ctx, msg.ExtendedPairVaultId).0.Id == msg.ExtendedPairVaultId
@@ -115,9 +139,10 @@ package keeper
 //@   ensures [C02] #c02-user-gets-principal-less-fee: ok ==> bal(user, dout) == old(bal(user, dout)) + msg.Amount - fee
 //@   ensures [C02] #c02-fee-to-collector: ok ==> bal(cm, dout) == old(bal(cm, dout)) + fee
 //@   ensures [C13] #c13-fee-recorded: ok ==> nf(k, ctx, msg.AppId, pair.AssetOut) == old(nf(k, ctx, msg.AppId, pair.AssetOut)) + fee
-//@   ensures [C03] #c03-min-cr: ok ==> crOf(k, ctx, msg.ExtendedPairVaultId, v1).1 == nil && crOf(k, ctx, msg.ExtendedPairVaultId, v1).0 >= ep.MinCr
+//@   ensures [C03] #c03-cr-defined: ok ==> crOf(k, ctx, msg.ExtendedPairVaultId, v1).1 == nil
+//@   ensures [C03] #c03-min-cr: ok ==> crOf(k, ctx, msg.ExtendedPairVaultId, v1).0 >= ep.MinCr
 //@   ensures [C03] #c03-ceiling: ok ==> mapMint(k, ctx, msg.AppId, msg.ExtendedPairVaultId) <= ep.DebtCeiling
-//@   fails_if [C03] #c03-price-inactive: k.oracle.CalcAssetPrice(ctx, pair.AssetIn, 1).1 != nil
+//@   fails_if [C03] #c03-price-inactive: !(K("market").GetTwa(ctx, pair.AssetIn).1 && K("market").GetTwa(ctx, pair.AssetIn).0.IsPriceActive)
 //@   ensures [C12] #c12-owner: ok ==> vf0 && msg.From == v0.Owner
 //@   ensures [C12] #c12-own-app: ok ==> v0.AppId == msg.AppId && v0.ExtendedPairVaultID == msg.ExtendedPairVaultId
 //@   fails_if [C14] #c14-breaker: k.esm.GetKillSwitchData(ctx, msg.AppId).0.BreakerEnable
